@@ -187,6 +187,19 @@ def _judge(ctx, v, code, rng):
     from parso.utils import parse_version_string, split_lines
     vi = parse_version_string(v)
     ctx.count('evaluations')
+    prev = _state.get('prev_code')
+    if prev is not None and rng.random() < .1:
+        # a token stream that is never exhausted (a caller that stops early, a strict parse that raises) must not
+        # influence the next stream
+        ctx.count('prior_abandoned_streams')
+        try:
+            it = tokenize(prev, version_info=vi)
+            for _ in range(rng.randint(1, 8)):
+                next(it)
+            del it
+        except Exception:
+            pass
+    _state['prev_code'] = code
     try:
         toks = list(tokenize(code, version_info=vi))
     except Exception:
